@@ -1181,7 +1181,7 @@ def gen_list_inner(r, npool):
     if op["k"] == "remove":
         op["v"] = {"t": "ref", "n": 0, "at": r.randrange(4)}
     if op["k"] == "imul":
-        op["n"] = r.choice([0, 2, 2])
+        op["n"] = r.choice([0, 2, 2, 3])
     op.pop("noniter", None)
     return op
 
